@@ -15,8 +15,9 @@ struct PT {
     int   cls; // 0 integer, 1 char, 2 float32, 3 float64
 };
 const PT  PTS[] = {{DFNT_UINT8, 1, 0}, {DFNT_INT8, 1, 0},    {DFNT_UINT16, 2, 0},  {DFNT_INT16, 2, 0},
-                   {DFNT_INT32, 4, 0}, {DFNT_UINT32, 4, 0},  {DFNT_FLOAT32, 4, 2}, {DFNT_FLOAT64, 8, 3}, {DFNT_CHAR8, 1, 1}};
-const int NPT   = 9;
+                   {DFNT_INT32, 4, 0}, {DFNT_UINT32, 4, 0},  {DFNT_FLOAT32, 4, 2}, {DFNT_FLOAT64, 8, 3}, {DFNT_CHAR8, 1, 1},
+                   {DFNT_INT16 | DFNT_LITEND, 2, 0}, {DFNT_UINT32 | DFNT_LITEND, 4, 0}, {DFNT_FLOAT64 | DFNT_LITEND, 8, 3}};
+const int NPT   = 12;
 
 static void pvalue(const PT &t, uint64_t dseed, uint64_t n, uint8_t *out)
 {
@@ -258,7 +259,7 @@ struct Raster : Profile {
         // interlace, so after a reopen the image reports (and expects) whatever the library says
         if (std::string(when) == "after reopen")
             m.il = (int)il;
-        if (nc != m.nc || (nt & 0xfff) != PTS[m.nt].code || il != m.il || dims[0] != m.w || dims[1] != m.h ||
+        if (nc != m.nc || (nt & 0x4fff) != (PTS[m.nt].code & 0x4fff) || il != m.il || dims[0] != m.w || dims[1] != m.h ||
             strcmp(nm, iname(i).c_str()) != 0)
             s.ctx.fail("info-mismatch", "info-mismatch",
                        strf("GRgetiminfo(img%d) (%s): name %s ncomp %d type %d il %d dims %dx%d; model ncomp %d type %d il %d dims %dx%d", i,
